@@ -447,6 +447,17 @@ def handle (ws : List String) : String :=
     let r := Orch.run c o ss [] 0
     s!"{if r.2 then "ok" else "fail"} {if Orch.hasEnd r.1 then "end" else "noend"} " ++
       ",".intercalate ((Orch.started r.1).map toString)
+  | "orchp" :: "resultk" :: ncpu :: skip :: exits :: steps :: kills :: [] =>
+    -- as "result", with the ids after whose loop body the lock is found dead (robsd-kill)
+    let c : Orch.Cfg := ⟨ncpu.toNat?.getD 1, fun j => (natList skip).contains j⟩
+    let ex := intFun exits
+    let o : Orch.Oracle := ⟨fun i => ex i, fun _ _ => false⟩
+    let ss : List Orch.Step := (listOf steps).filterMap fun e => match e.splitOn ":" with
+      | i :: p :: en :: [] => some ⟨i.toNat?.getD 0, p == "1", en == "1"⟩
+      | _ => none
+    let r := Orch.runK c o (fun i => (natList kills).contains i) ss [] 0
+    s!"{if r.2 then "ok" else "fail"} {if Orch.hasEnd r.1 then "end" else "noend"} " ++
+      ",".intercalate ((Orch.started r.1).map toString)
   | "clean" :: n :: lock :: listing :: [] =>
     ",".intercalate ((Clean.cleaned ((listOf listing).map hexArg) (optHex lock) (n.toNat?.getD 0)).map toHex)
   | "buildid" :: date :: dirs :: [] => toHex (Clean.buildId (hexArg date) ((listOf dirs).map hexArg))
